@@ -554,3 +554,336 @@ _reg(DecodeProp(
     "accepted temporal / environmental vectors of both versions: score, severity and encoding obtained through BaseMetrics() and "
     "TemporalMetrics() against (a) the specification's value for the lower-level part and (b) a fresh lower-level decoder applied to the "
     "view's own encoding (flag pv); all base vectors through the higher decoders"))
+
+
+# ------------------------------------------------------------------------------------------ names, reports, export
+
+TAGS_JUDGED = ["en", "ja", "fr", "und", "zh-Hant", "de"]
+TAGS_REGIONAL = ["en-US", "ja-JP"]      # left unspecified by C18: run, recorded, not judged
+
+
+def run_extract():
+    """regenerate lean/CvssVerif/Generated/Names.lean from /repo (translator tie of C17/C18)"""
+    src = os.path.join(core.VERIF, "go", "extract")
+    out = os.path.join(core.BUILD, "extract")
+    core.sh(["go", "build", "-o", out, "."], cwd=src, env=core.GOENV, timeout=300)
+    p = core.sh([out, core.REPO, os.path.join(core.LEAN, "CvssVerif", "Generated", "Names.lean")], timeout=120)
+    return p.stdout.strip()
+
+
+import os  # noqa: E402
+
+
+class SimpleProp:
+    """a property decided on ops whose full result line is compared and judged by `judge_line`"""
+    needs_extract = False
+    trusted_base = TB_COMMON
+    assumptions = []
+
+    def ops(self, tier, rng):
+        raise NotImplementedError
+
+    def expected(self, ops, go):
+        """model lines to compare with (default: run the same ops on the model)"""
+        return core.run_sharded(core.MODEL, ops)
+
+    def judge_line(self, op, g):
+        return []
+
+    def keep(self, op):
+        return True
+
+    def run(self, tier, rng, seed):
+        out = Outcome()
+        out.rule = self.rule
+        ops = self.ops(tier, rng)
+        go = core.run_sharded(core.HARNESS, ops, shards=max(1, core.NPROC // 2))
+        mo = self.expected(ops, go)
+        out.evaluations = len(ops)
+        out.distinct = len(set(ops))
+        hist = {}
+        for op, g, m in zip(ops, go, mo):
+            k = op.split(" ")[0] + ("/" + self.bucket(op, g) if hasattr(self, "bucket") else "")
+            hist[k] = hist.get(k, 0) + 1
+            if g.startswith(("PANIC", "CRASH", "TIMEOUT")):
+                out.violations.append((op, "operation did not return normally: " + g[:100], g, m))
+                continue
+            if self.keep(op) and self.cmp(g) != self.cmp_model(m):
+                out.mismatches += 1
+                if len(out.mismatch_examples) < 10:
+                    out.mismatch_examples.append({"stream": self.prop, "op": op, "impl": g[:2000], "model": m[:2000]})
+            for msg in self.judge_line(op, g, m):
+                out.violations.append((op, msg, g[:1500], m[:1500]))
+        for msg, op in self.judge_all(ops, go):
+            out.violations.append((op, msg, "", ""))
+        out.hist = hist
+        out.stream_info.append({"stream": self.prop, "ops": len(ops), "exhaustive": getattr(self, "exhaustive", False),
+                                "mismatches": out.mismatches, "violations": len(out.violations)})
+        out.exhaustive = getattr(self, "exhaustive", False)
+        step = max(1, len(ops) // 5)
+        out.samples = [{"op": runner._readable(o), "impl": g[:300]} for o, g in list(zip(ops, go))[::step]][:6]
+        return out
+
+    def cmp(self, g):
+        return g
+
+    def cmp_model(self, m):
+        return m
+
+    def judge_all(self, ops, go):
+        return []
+
+    def replay(self, rp):
+        return self.run("quick", core.Rng(1), 1)
+
+
+NAME_FUNCS_TITLE = ["AttackComplexity", "AttackVector", "AvailabilityImpact", "AvailabilityRequirement", "BaseMetrics", "BaseMetricsValueOf",
+                    "ConfidentialityImpact", "ConfidentialityRequirement", "EnvironmentalMetrics", "EnvironmentalMetricsValueOf", "Exploitability",
+                    "IntegrityImpact", "IntegrityRequirement", "ModifiedAttackComplexity", "ModifiedAttackVector", "ModifiedAvailabilityImpact",
+                    "ModifiedConfidentialityImpact", "ModifiedIntegrityImpact", "ModifiedPrivilegesRequired", "ModifiedScope",
+                    "ModifiedUserInteraction", "PrivilegesRequired", "RemediationLevel", "ReportConfidence", "Scope", "Severity",
+                    "TemporalMetrics", "TemporalMetricsValueOf", "UserInteraction"]
+MOD_PAIRS = [("MAV", "AV"), ("MAC", "AC"), ("MPR", "PR"), ("MUI", "UI"), ("MS", "S"), ("MC", "C"), ("MI", "I"), ("MA", "A")]
+
+
+class NamesProp(SimpleProp):
+    prop = "C18"
+    needs_extract = True
+    exhaustive = True
+    lean_modules = ["CvssVerif.Props.C18"]
+    theorems = ["CvssVerif.Props.C18." + t for t in (
+        "extractor_complete", "tables_only_en_ja", "titles_nonempty", "functions_present", "values_named_unambiguously", "severity_named",
+        "modified_same_names", "keys_are_defined_values", "out_of_range_unknown", "unknown_names", "other_lang_is_english")]
+    rule = ("all 52 exported functions of v3/report/names x enumeration integers -3..10 x language tags {en, ja, fr, und, zh-Hant, de} "
+            "(en-US and ja-JP are run and recorded but, as the property leaves regional variants unspecified, not judged); distinct by op")
+    assumptions = ["golang.org/x/text/language tag equality is not modelled: a tag is 'English', 'Japanese' or 'other'"]
+    trusted_base = TB_COMMON + ["go/extract (go/parser based translator of the names tables into Generated/Names.lean, re-run on every check)"]
+
+    def ops(self, tier, rng):
+        from . import vec
+        ops = []
+        fns = NAME_FUNCS_TITLE + [m[0] + "ValueOf" for m in vec.V3] + ["SeverityValueOf"]
+        for fn in fns:
+            for v in range(-3, 11):
+                for tag in TAGS_JUDGED + TAGS_REGIONAL:
+                    ops.append("NM %s %d %s" % (fn, v, tag))
+        return ops
+
+    def keep(self, op):
+        return op.split(" ")[3] not in TAGS_REGIONAL
+
+    def judge_line(self, op, g, m):
+        return []
+
+    def judge_all(self, ops, go):
+        from . import vec
+        res = {}
+        for op, g in zip(ops, go):
+            f = op.split(" ")
+            d = core.parse_kv(g)
+            try:
+                res[(f[1], int(f[2]), f[3])] = core.unhx(d.get("name", "-")).decode("utf-8", "replace")
+            except Exception:
+                res[(f[1], int(f[2]), f[3])] = None
+        msgs = []
+        # the enumeration value of each code comes from the implementation's own Get (table dump)
+        tops = []
+        for mm in vec.V3:
+            for c in mm[2]:
+                tops.append("T3 %s get %s" % (mm[0], core.hx(c)))
+        tg = core.run_sharded(core.HARNESS, tops, shards=1)
+        val = {}
+        for op, g in zip(tops, tg):
+            f = op.split(" ")
+            val[(f[1], core.unhx(f[3]).decode())] = int(core.parse_kv(g).get("get", "0"))
+        unknown = {"en": "Unknown", "ja": "未定義"}
+        for fn in NAME_FUNCS_TITLE:
+            for tag in ("en", "ja"):
+                if not res.get((fn, 0, tag)):
+                    msgs.append(("title %s has no %s name" % (fn, tag), "NM %s 0 %s" % (fn, tag)))
+        for mm in vec.V3:
+            fn = mm[0] + "ValueOf"
+            defined = [val[(mm[0], c)] for c in mm[2]]
+            for tag in ("en", "ja"):
+                names = [res.get((fn, v, tag)) for v in defined]
+                for v, n in zip(defined, names):
+                    if not n:
+                        msgs.append(("%s(%d) has no %s name" % (fn, v, tag), "NM %s %d %s" % (fn, v, tag)))
+                if len(set(names)) != len(names):
+                    msgs.append(("%s: two defined values share a %s name: %s" % (fn, tag, names), "NM %s %d %s" % (fn, defined[0], tag)))
+                for v in range(-3, 11):
+                    if v not in defined and res.get((fn, v, tag)) != unknown[tag]:
+                        msgs.append(("%s(%d) out of range is named %r in %s" % (fn, v, res.get((fn, v, tag)), tag), "NM %s %d %s" % (fn, v, tag)))
+        for tag in ("en", "ja"):
+            defined = [1, 2, 3, 4, 5]
+            names = [res.get(("SeverityValueOf", v, tag)) for v in defined]
+            if not all(names) or len(set(names)) != 5:
+                msgs.append(("severity names in %s: %s" % (tag, names), "NM SeverityValueOf 1 %s" % tag))
+            for v in range(-3, 11):
+                if v not in defined and res.get(("SeverityValueOf", v, tag)) != unknown[tag]:
+                    msgs.append(("SeverityValueOf(%d) out of range is named %r" % (v, res.get(("SeverityValueOf", v, tag))), "NM SeverityValueOf %d %s" % (v, tag)))
+        for mod, base in MOD_PAIRS:
+            bm = [m for m in vec.V3 if m[0] == base][0]
+            for c in bm[2]:
+                for tag in ("en", "ja"):
+                    a = res.get((mod + "ValueOf", val[(mod, c)], tag))
+                    b = res.get((base + "ValueOf", val[(base, c)], tag))
+                    if a != b:
+                        msgs.append(("%s value %s is named %r but %s value %s is named %r (%s)" % (mod, c, a, base, c, b, tag),
+                                     "NM %sValueOf %d %s" % (mod, val[(mod, c)], tag)))
+        for (fn, v, tag), n in res.items():
+            if tag in ("fr", "und", "zh-Hant", "de") and n != res.get((fn, v, "en")):
+                msgs.append(("%s(%d) in %s is %r, English is %r" % (fn, v, tag, n, res.get((fn, v, "en"))), "NM %s %d %s" % (fn, v, tag)))
+        return msgs
+
+
+_reg(NamesProp())
+
+
+class ReportProp(SimpleProp):
+    prop = "C17"
+    needs_extract = True
+    lean_modules = ["CvssVerif.Props.C17"]
+    theorems = ["CvssVerif.Props.C17." + t for t in ("report_field", "wiring", "levels", "version_field", "paths_unique", "score_rendering")]
+    rule = ("all-values cover (each value of each of the 22 metrics, neighbouring metrics pairwise different) plus seeded random vectors and "
+            "vectors scoring 0.0 and 10.0 at every level, x 3 report levels x language tags; every exported string field of the report and "
+            "of its embedded reports compared by path; distinct by op")
+    assumptions = ["strconv.FormatFloat is not modelled beyond the tenth grid (all scores are on it: C06)"]
+    trusted_base = TB_COMMON + ["Report.schema (lean/CvssVerif/Model/Report.lean) as the formal reading of 'each field shows its own metric'",
+                                "go/extract for the names tables"]
+
+    def ops(self, tier, rng):
+        from . import vec
+        vecs = []
+        # all-values cover: cyclic assignment so that neighbours differ
+        for shift in range(6):
+            for ver in vec.VERS3:
+                vals = [m[2][(shift + i) % len(m[2])] for i, m in enumerate(vec.V3)]
+                vecs.append(vec.v3vec(ver, vec.toks(vec.V3, vals)))
+        # extremes: 10.0 and 0.0 at each level
+        vecs += ["CVSS:3.1/AV:N/AC:L/PR:N/UI:N/S:C/C:H/I:H/A:H", "CVSS:3.0/AV:N/AC:L/PR:N/UI:N/S:C/C:H/I:H/A:H/E:H/RL:U/RC:C/CR:H/IR:H/AR:H",
+                 "CVSS:3.1/AV:N/AC:L/PR:N/UI:N/S:U/C:N/I:N/A:N", "CVSS:3.1/AV:N/AC:L/PR:N/UI:N/S:C/C:H/I:H/A:H/MC:N/MI:N/MA:N",
+                 "CVSS:3.1/AV:P/AC:H/PR:H/UI:R/S:U/C:N/I:N/A:L/E:U/RL:O/RC:U", "CVSS:3.0/AV:L/AC:L/PR:N/UI:N/S:U/C:H/I:H/A:H/MAV:N/MS:C"]
+        n = 300 if tier == "quick" else 30000
+        for _ in range(n):
+            vecs.append(vec.rand_v3(rng, 2))
+        ops = []
+        tags = TAGS_JUDGED + TAGS_REGIONAL if tier == "thorough" else ["en", "ja", "fr", "und"]
+        for v in vecs:
+            for L in "BTE":
+                # a report of level L is built from a decoder of level L: keep only its metrics
+                toks = v.split("/")
+                keep = [toks[0]] + [t for t in toks[1:] if any(m[0] == t.split(":")[0] and m[1] <= "BTE".index(L) for m in vec.V3)]
+                for tag in tags:
+                    ops.append("R3 %s %s %s" % (L, tag, core.hx("/".join(keep))))
+        return ops
+
+    def keep(self, op):
+        return op.split(" ")[2] not in TAGS_REGIONAL
+
+    def judge_line(self, op, g, m):
+        # the model *is* the schema evaluated on the specification's names: a differing field is a violation
+        if op.split(" ")[2] in TAGS_REGIONAL or g == m:
+            return []
+        gd, md = core.parse_kv(g), core.parse_kv(m)
+        msgs = []
+        for k in sorted(set(gd) | set(md)):
+            if gd.get(k) != md.get(k) and k != "_":
+                msgs.append("report field %s shows %r, expected %r" % (k, _txt(gd.get(k)), _txt(md.get(k))))
+        return msgs[:5]
+
+
+def _txt(h):
+    try:
+        return core.unhx(h).decode("utf-8", "replace")
+    except Exception:
+        return h
+
+
+_reg(ReportProp())
+
+
+TEMPLATE_ATOMS = [
+    "{{.Vector}}", "{{.Version}}", "{{.BaseScore}}", "{{.SeverityValue}}", "{{.SeverityName}}", "{{.AVName}}: {{.AVValue}}",
+    "{{.BaseReport.Vector}}", "{{.BaseReport.SeverityValue}}", "{{.TemporalReport.SeverityValue}}", "{{.TemporalReport.BaseReport.BaseScore}}",
+    "{{.TemporalScore}}", "{{.EnvironmentalScore}}", "{{.EName}}={{.EValue}}", "{{.MSName}}={{.MSValue}}", "{{.CRValue}}",
+    "{{.AVName | printf \"%q\"}}", "{{printf \"%s/%s\" .ACName .ACValue}}", "{{len .Vector}}", "{{.Vector | len | printf \"%d\"}}",
+    "{{if .BaseScore}}S={{.BaseScore}}{{else}}none{{end}}", "{{with .PRValue}}[{{.}}]{{end}}", "{{range .Vector}}.{{end}}",
+    "{{if eq .SeverityValue \"Critical\"}}!{{end}}", "{{/* comment */}}x", "plain text あ", "| {{.BaseMetrics}} | {{.BaseMetricValue}} |\n",
+    "{{.Nope}}", "{{.AVName.X}}", "{{nofunc .AVName}}", "{{.Vector", "{{end}}", "{{if}}", "{{template \"t\"}}", "{{.BaseReport}}",
+    "{{define \"a\"}}{{template \"a\" .}}{{end}}{{template \"a\" .}}", "{{index .Vector 1000}}", "{{slice .Vector 0 4}}", "{{.ExportWithString \"x\"}}",
+    "{{call .Vector}}", "{{printf \"%d\" .BaseScore}}", "{{ .Vector | html }}", "{{\"quoted\"}}", "{{1.5}} {{true}} {{nil}}", "{{$x := .UIValue}}{{$x}}",
+]
+
+
+class ExportProp(SimpleProp):
+    prop = "C19"
+    lean_modules = ["CvssVerif.Props.C19"]
+    theorems = ["CvssVerif.Props.C19." + t for t in ("bad_reader", "reader_is_string", "nil_report", "engine_result", "clean_failure")]
+    rule = ("templates built from a grammar of atoms (field references of all three levels incl. shadowed fields through embedded reports, "
+            "pipelines, if/with/range, unknown fields and functions, unbalanced actions, self-recursive templates) and byte-level mutations of "
+            "them, x reports of all levels and two languages, x {string, reader, chunked reader, failing reader, nil reader, nil report}; the "
+            "library's result against text/template called directly on the same report; distinct by op")
+    assumptions = ["PARTIAL: text/template itself is not modelled; it is the oracle the harness calls directly",
+                   "'nil reader' is the nil interface; a typed nil pointer inside a non-nil io.Reader is a reader that panics (not covered)"]
+    trusted_base = TB_COMMON + ["text/template as reference engine inside the harness"]
+
+    def ops(self, tier, rng):
+        from . import vec
+        n = 1500 if tier == "quick" else 200000
+        vecs = ["CVSS:3.1/AV:N/AC:L/PR:N/UI:N/S:C/C:H/I:H/A:H", "CVSS:3.0/AV:L/AC:H/PR:L/UI:R/S:U/C:L/I:N/A:H/E:F/RL:W/RC:R/CR:H/MAV:N/MS:C"]
+        ops = []
+        modes = ["string", "reader", "chunked", "nilreader", "nilreport", "fail:0", "fail:3"]
+        for i in range(n):
+            k = 1 + rng.below(4)
+            t = "".join(rng.choice(TEMPLATE_ATOMS) + rng.choice(["", " ", "\n", "-"]) for _ in range(k))
+            if rng.chance(1, 5) and t:
+                pos = rng.below(len(t))
+                t = t[:pos] + rng.choice(["{", "}", ".", "\x00", "{{", "}}", "\"", "|"]) + t[pos + rng.below(2):]
+            t = t[:200]
+            L = "BTE"[rng.below(3)]
+            mode = modes[i % len(modes)] if i < 4 * len(modes) else rng.choice(modes)
+            if mode.startswith("fail:") and rng.chance(1, 2):
+                mode = "fail:%d" % rng.below(max(1, len(t)))
+            ops.append("X3 %s %s %s %s %s" % (L, rng.choice(["en", "ja"]), core.hx(rng.choice(vecs)), mode, core.hx(t)))
+        return ops
+
+    def bucket(self, op, g):
+        d = core.parse_kv(g)
+        return op.split(" ")[4].split(":")[0] + "/" + d.get("ref", "?").split(":")[0]
+
+    def expected(self, ops, go):
+        mops = []
+        for op, g in zip(ops, go):
+            d = core.parse_kv(g)
+            mops.append("XM %s %s" % (op.split(" ")[4], d.get("ref", "none")))
+        return core.run_sharded(core.MODEL, mops)
+
+    def cmp(self, g):
+        return core.parse_kv(g).get("lib")
+
+    def cmp_model(self, m):
+        return m
+
+    def judge_line(self, op, g, m):
+        d = core.parse_kv(g)
+        lib, ref = d.get("lib", ""), d.get("ref", "")
+        mode = op.split(" ")[4]
+        out, _, err = lib.partition("|")
+        msgs = []
+        if mode in ("nilreader",) or mode.startswith("fail:"):
+            if err != "InvalidTemplate" or out != "noout":
+                msgs.append("%s reader: result %s" % (mode, lib))
+        elif mode == "nilreport":
+            if err != "NullPointer" or out != "noout":
+                msgs.append("nil report: result %s" % lib)
+        elif ref.startswith("out:"):
+            if out != ref or err != "-":
+                msgs.append("library output %s, text/template yields %s" % (_txt(out[4:]) if out.startswith("out:") else lib, _txt(ref[4:])))
+        else:
+            if err != "InvalidTemplate" or out != "noout":
+                msgs.append("template %s but library result is %s" % (ref, lib))
+        return msgs
+
+
+_reg(ExportProp())
